@@ -363,10 +363,15 @@ inductive SPhase where
   | finished
   deriving Repr, DecidableEq
 
-/-- local state of `Split.run`: `active_seqs` (with their types), the block being read, the
+/-- local state of `Split.run`: `active_seqs` (with their types), `orig_buf`, the block being read, the
 results of the current block not yet handed downstream, `flow_was_empty` -/
 structure SSt (σb α : Type) where
   act : List (Lena.C03.Branch σb α)
+  /-- the list `orig_buf` is bound to: the block being processed, and — while the next
+  `list(islice(...))` is being built — still the block processed last (Python rebinds the name only
+  when the new list is complete) -/
+  cur : List α
+  /-- the list under construction inside `list(itertools.islice(flow, bufsize))` -/
   buf : List α
   pending : List α
   phase : SPhase
@@ -377,10 +382,10 @@ the flow (`break`) and starts the final pass; otherwise every active sequence ge
 (`Lena.C03.blockLoop`) and the next read happens only after all their results were yielded. -/
 def processBlock {σb : Type} (copyBuf : Bool) (s : σ) (l : SSt σb α) : Step (σ × SSt σb α) α :=
   if l.buf.isEmpty then
-    .cont (s, { l with pending := Lena.C03.outputs (Lena.C03.finalPass l.fwe l.act), phase := .finalEmit })
+    .cont (s, { l with cur := l.buf, pending := Lena.C03.outputs (Lena.C03.finalPass l.fwe l.act), phase := .finalEmit })
   else
     let r := Lena.C03.blockLoop copyBuf l.buf (l.act.length + 1) 0 l.act []
-    .cont (s, { act := r.2, buf := [], pending := Lena.C03.outputs r.1, phase := .emitting, fwe := false })
+    .cont (s, { act := r.2, cur := l.buf, buf := [], pending := Lena.C03.outputs r.1, phase := .emitting, fwe := false })
 
 /-- `islice(flow, bufsize)` has delivered `bufsize` values: it does not pull again -/
 def blockFull (bufsize : Option Nat) (buf : List α) : Bool :=
@@ -416,7 +421,7 @@ def splitG {σb : Type} (bufsize : Option Nat) (copyBuf : Bool) (up : Gen σ α)
   ofStep (splitStep bufsize copyBuf up)
 
 def splitInit {σb : Type} (branches : List (Lena.C03.Branch σb α)) : SSt σb α :=
-  { act := branches, buf := [], pending := [], phase := .reading, fwe := true }
+  { act := branches, cur := [], buf := [], pending := [], phase := .reading, fwe := true }
 
 /-! ## pipelines: `Sequence.run` -/
 
@@ -671,6 +676,55 @@ def Stage.den : Stage α → List α → List α
 
 def seqDen (els : List (Stage α)) (xs : List α) : List α := els.foldl (fun ys el => el.den ys) xs
 
+/-! ## executable forms of the hypotheses of the theorems, documented buffer sizes, input prefixes
+
+Evaluated by the driver on every generated case: `Props/C02.lean` proves `wfb ↔ WF`,
+`seqFuelOKb ↔ seqFuelOK`; `Stage.cap` is what the liveness oracle of the harness allows per element. -/
+
+def negArgsB (a b : Option Int) : Bool :=
+  (match a with | some i => decide (i < 0) | none => false) ||
+  (match b with | some i => decide (i < 0) | none => false)
+
+
+def Stage.wfb : Stage α → Bool
+  | .islice _ _ st => decide (1 ≤ st)
+  | .negslice a b st => negArgsB a b && decide (1 ≤ st)
+  | .split _ _ bufsize _ => decide (bufsize ≠ some 0)
+  | _ => true
+
+
+def Stage.fuelOKb (st : Stage α) (sf : SF α) (fu : Nat) : Bool :=
+  decide (4 * sf.vals.length + 5 < fu) &&
+  match st with
+  | .negslice a b _ => decide ((negSpec a b sf).vals.length < fu)
+  | _ => true
+
+def seqFuelOKb : List (Stage α) → SF α → Nat → Bool
+  | [], _, _ => true
+  | e :: es, sf, fu => e.fuelOKb sf fu && seqFuelOKb es (e.spec sf) fu
+
+
+/-- the number of input values an element documents to keep (what the liveness oracle of the harness
+allows per element, apart from frame locals): `|index|` for a negative `Slice`, one value of look-ahead
+for `Count`, for `Split` the block bound to `orig_buf` plus the block being read; `none`: the element
+documents that it materialises the flow (`bufsize=None`) -/
+def Stage.cap : Stage α → Option Nat
+  | .negslice a b _ => some (max (negLen a) (negLen b))
+  | .count _ => some 1
+  | .split _ brs bufsize _ => if brs.isEmpty then some 0 else bufsize.map (fun b => 2 * b)
+  | _ => some 0
+
+def seqCap : List (Stage α) → Option Nat
+  | [] => some 0
+  | e :: es => match e.cap, seqCap es with
+    | some a, some b => some (a + b)
+    | _, _ => none
+
+
+/-- the first `n` values of the infinite input `f 0, f 1, …` -/
+def prefixOf (f : Nat → α) (n : Nat) : List α := (List.range n).map f
+
+
 end generic
 
 /-! ## the concrete vocabulary of the harness -/
@@ -773,6 +827,9 @@ structure BrSt where
   count : Int
   /-- its `_cur_context` -/
   ctx : List (String × Int)
+  /-- the counters of the `Count` elements inside `RunIf` elements of a sequence-type branch (one
+  element object serves every block) -/
+  cnts : List Int := []
   deriving Repr
 
 /-- `FillComputeSeq.fill` / `compute` with `Count(name)` as the fill/compute element and `post` as
@@ -781,7 +838,7 @@ def fcOps (name : String) (post : List V → List V) : Lena.C03.Ops BrSt V where
   call := fun s => ([], s)
   fill := fun s v =>
     match fillChain s.pre v with
-    | (pre', .reached v') => ({ pre := pre', count := s.count + 1, ctx := v'.ctx }, false)
+    | (pre', .reached v') => ({ s with pre := pre', count := s.count + 1, ctx := v'.ctx }, false)
     | (pre', .dropped) => ({ s with pre := pre' }, false)
     | (pre', .stopped) => ({ s with pre := pre' }, true)
   compute := fun s =>
@@ -790,12 +847,21 @@ def fcOps (name : String) (post : List V → List V) : Lena.C03.Ops BrSt V where
   request := fun s => ([], s)
   run := fun s _ => ([], s)
 
-/-- a `Sequence` of stateless streaming elements: `seq.run(buf)` drained -/
-def seqOps (run : List V → List V) : Lena.C03.Ops BrSt V where
+/-- a `Sequence` of streaming elements: `seq.run(buf)` drained; `run cnts buf` also gives the new
+counters of the `Count` elements inside its `RunIf` elements -/
+def seqOps (run : List Int → List V → List V × List Int) : Lena.C03.Ops BrSt V where
   call := fun s => ([], s)
   fill := fun s _ => (s, false)
   compute := fun s => ([], s)
   request := fun s => ([], s)
-  run := fun s buf => (run buf, s)
+  run := fun s buf => let r := run s.cnts buf; (r.1, { s with cnts := r.2 })
+
+/-- a `Source` given to `Split`: `seq()` drained -/
+def srcOps (vals : List V) : Lena.C03.Ops BrSt V where
+  call := fun s => (vals, s)
+  fill := fun s _ => (s, false)
+  compute := fun s => ([], s)
+  request := fun s => ([], s)
+  run := fun s _ => ([], s)
 
 end Lena.C02
